@@ -108,7 +108,7 @@ def check_schema(ctx, ast, fe, lits, tag, maxlen, extra):
     if not L.is_err(m):
         ok = M([11, sa])
         if ok != [1, 1]:
-            ctx.disagree('chains_ok', 'the hypothesis chains_ok of C11_match_iff_partial / C12_check_iff_partial does not hold for this schema', case, ok, None)
+            ctx.disagree('chains_ok', 'chains_ok (a lemma of C11_match_iff / C12_check_iff, proved from static_ok + schema_wf) does not hold for this schema', case, ok, None)
         else:
             ctx.stat('chains_ok.holds')
     if r[0] == 'err':
